@@ -715,6 +715,25 @@ class Sym:
 
     __floor__ = floor
 
+    def __round__(self, ndigits=None):
+        """round half up (Python rounds half to even: ties differ only on a measure-zero set)"""
+        k = 10 ** int(ndigits or 0)
+        r = (self * k + 0.5).floor() / k
+        return r if ndigits is not None else r
+
+    def rint(self):
+        return self.__round__()
+
+    def sign(self):
+        if self > 0:
+            return 1.0
+        if self < 0:
+            return -1.0
+        return 0.0
+
+    def square(self):
+        return self * self
+
     def fabs(self):
         return abs(self)
 
